@@ -17,11 +17,11 @@ from props import c18_util as U
 PROP = "C18"
 LEVEL = "proof"
 GEN_UNITS = []
-COQ_TARGETS = ["Props/C18.vo", "Model/C18Cmp.vo", "Model/Harness.vo"]
-THEOREM_FILES = ["Props/C18.v"]
+COQ_TARGETS = ["Props/C18.vo", "Props/C18Perm.vo", "Props/C18Rows.vo", "Model/C18Cmp.vo", "Model/Harness.vo"]
+THEOREM_FILES = ["Props/C18.v", "Props/C18Perm.v", "Props/C18Rows.v"]
 COQ_IMPORTS = ("From Coq Require Import List ZArith Bool QArith Qcanon.\n"
                "From PV Require Import Base.Index Np.Array Model.Sparse Model.Repr Model.Harness Model.C18Cmp.\n")
-SHARD = 10
+SHARD = 12          # quick tier: <= 16 shards = one round on 16 cores; ~1.3 s of library loading per shard
 TOL = Fraction(1, 10 ** 8)
 
 PAIRS = {
@@ -31,14 +31,18 @@ PAIRS = {
     "scale": ("cp_als", "hosvd", "tucker_als"),
     "relabel": ("cp_als", "hosvd", "tucker_als"),
 }
-# everything except what Props/C18.v proves: cp_als repr / print / scale / relabel (sweep + loop model); hosvd / tucker_als scale
+# everything except what Props/C18*.v prove: cp_als repr / print / scale / relabel (sweep + loop model); hosvd / tucker_als scale
 # (rank rule + abstract projector model); wave 3: print for hosvd / tucker_als / cp_apr_mu (transliterated drivers, Proofs/C18Print.v),
 # repr for tucker_als (Gram matrix handed to the eigen solver identical for dense / sparse holders + abstract loop), relabel for
-# hosvd / tucker_als (abstract projector model under an equivariant oracle). The eigen-solvers and the Gram-permutation identity
-# behind the abstract Tucker theorems stay correspondence-only (manifest note).
+# hosvd / tucker_als (abstract projector model under an equivariant oracle); wave 3b: the equivariance contract of the projector step
+# is DISCHARGED on dense holders (Props/C18Perm.v: Gram-permutation identity, mode products commute with relabelling, hosvd's whole
+# mode loop for any function from the Gram matrix to the applied matrix), print for cp_apr_pdnr / cp_apr_pqnr / gcp (transliterated
+# drivers, Proofs/C18PrintRows.v; pdnr / pqnr under the contract that the in-place normalisation of the printed log-likelihood is
+# invisible to redistribute(0) / the final normalize on normalised states). The eigen-solvers stay oracles.
 PROVED = {("cp_als", "repr"), ("cp_als", "print"), ("cp_als", "scale"), ("cp_als", "relabel"), ("hosvd", "scale"), ("tucker_als", "scale"),
           ("hosvd", "print"), ("tucker_als", "print"), ("cp_apr_mu", "print"), ("tucker_als", "repr"),
-          ("hosvd", "relabel"), ("tucker_als", "relabel")}
+          ("hosvd", "relabel"), ("tucker_als", "relabel"),
+          ("cp_apr_pdnr", "print"), ("cp_apr_pqnr", "print"), ("gcp", "print")}
 CORRESPONDENCE_ONLY = [f"{p}.{a}" for p, algs in PAIRS.items() for a in algs if (a, p) not in PROVED]
 
 RULE = ("metamorphic pairs of real runs, maxiters <= 5, <= 36 cells, ranks 1-2: repr = dense vs sparse holder of the same integer "
@@ -253,8 +257,8 @@ def base_run(rng, alg, shape=None, seeded=False, zero_slice=False, zero_init=Fal
         rd["rank"] = R
         rd["opts"] = {"maxiters": rng.randint(1, 4), "stoptol": rng.choice([1e-4, 1e-2]), "maxinneriters": rng.choice([2, 5, 10])}
         if alg == "cp_apr_pqnr":
-            rd["opts"]["maxiters"] = rng.choice([1, 1, 2, 3])          # >= 2 sweeps or >= 3 inner its: finding C18-PQNR-TIE
-            rd["opts"]["maxinneriters"] = rng.choice([1, 2, 2, 3])     # larger values mostly die in pyttb's own L-BFGS assertion (not C18)
+            rd["opts"]["maxiters"] = rng.choice([1, 1, 2, 3])          # >= 2 sweeps or >= 2 inner its: finding C18-PQNR-TIE
+            rd["opts"]["maxinneriters"] = rng.choice([1, 1, 2, 3])     # larger values mostly die in pyttb's own L-BFGS assertion (not C18)
         if alg != "cp_apr_mu":
             rd["opts"]["precompinds"] = rng.random() < 0.5
         if alg == "cp_apr_pdnr":
@@ -330,6 +334,13 @@ def _mk(pair, alg, base, trans, c=1, perm=None, extra=None):
     return Case(f"{pair}.{alg}", args, _nontrivial(base, pair, perm))
 
 
+def _nvecs_ok(b):
+    """init='nvecs' asks every mode for `rank` leading eigenvectors of an I_n x I_n Gram matrix: admissible only for rank <= I_n
+    (cp_als(shape (3,1,4), rank 2, init='nvecs') gets a 1-column factor for the singleton mode and dies in the ktensor constructor)"""
+    r = b["rank"]
+    return all(d >= (r[n] if isinstance(r, list) else r) for n, d in enumerate(b["shape"]))
+
+
 FAR_SCALES = [2.0 ** -24, 2.0 ** -17, 2.0 ** 24, 2.0 ** -20, 2.0 ** -30]
 
 
@@ -344,9 +355,13 @@ def gen_cases(rng, tier):
     big = tier == "thorough"
     k = 10 if big else 1
     cases = []
+    # quick tier: every class of pair once or twice (whole check ~30 s unloaded, ~75 s of CPU); the volume is in the thorough tier
+    # (k = 10 and the full count tables: ~4 min unloaded)
+    def cnt(q, t):
+        return t * k if big else q
     # 1. repr: dense vs sparse holder (various stored orders)
-    for alg, n in (("cp_als", 10), ("cp_apr_mu", 7), ("cp_apr_pdnr", 8), ("cp_apr_pqnr", 8), ("tucker_als", 7)):
-        for j in range(n * k):
+    for alg, nq, n in (("cp_als", 7, 10), ("cp_apr_mu", 5, 7), ("cp_apr_pdnr", 8, 8), ("cp_apr_pqnr", 6, 8), ("tucker_als", 5, 7)):
+        for j in range(cnt(nq, n)):
             zs = alg in ("cp_apr_pdnr", "cp_apr_pqnr", "cp_apr_mu") and j % 4 == 3
             b = base_run(rng, alg, zero_slice=zs)
             order = ("sorted", "reversed", "random")[j % 3]
@@ -359,7 +374,8 @@ def gen_cases(rng, tier):
                 b = to_sparse(rng, b, "random")
             if "maxiters" in b["opts"] and j % 3 == 0:
                 b["opts"]["maxiters"] = 5
-            for pr in ((1, 3, 6) if alg == "hosvd" else (1, 2, 5)):
+            prs = (1, 3, 6) if alg == "hosvd" else (1, 2, 5)
+            for pr in (prs if big else (prs[j % 3], prs[(j + 1) % 3])):
                 t = dict(b)
                 t["printitn"] = pr
                 cases.append(_mk("print", alg, b, t))
@@ -368,16 +384,18 @@ def gen_cases(rng, tier):
     #     inadmissible-zero repair, PDNR/PQNR's zero handling) runs right after a printed iteration in one run and after a silent
     #     one in the other - a print branch that leaves the running model in a different state shows up here
     ppairs = [(0, 1), (0, 2), (0, 5), (1, 2), (1, 5), (2, 5)]
-    for alg, n in (("cp_apr_mu", 3), ("cp_apr_pdnr", 2), ("cp_apr_pqnr", 2), ("cp_als", 1), ("tucker_als", 1)):
-        for j in range(n * k):
-            b = base_run(rng, alg, zero_init=alg.startswith("cp_apr_"))
+    #     (measured on seeded change C18-B: about 2 of 3 rank-2 MU bases expose it, always through a pair (0, p); rank 1 never does -
+    #     so the quick tier takes 5 rank-2 MU bases with 3 pairs each rather than 2 bases with all 6 pairs)
+    for alg, nq, n in (("cp_apr_mu", 5, 3), ("cp_apr_pdnr", 2, 2), ("cp_apr_pqnr", 1, 2), ("cp_als", 1, 1), ("tucker_als", 1, 1)):
+        for j in range(cnt(nq, n)):
+            b = base_run(rng, alg, zero_init=alg.startswith("cp_apr_"), rank=(2 if alg == "cp_apr_mu" and not big else None))
             if j % 2 == 1:
                 b = to_sparse(rng, b, "random")
             b["opts"]["maxiters"] = {"cp_apr_mu": rng.choice([4, 5, 6]), "cp_apr_pdnr": rng.choice([3, 4, 5]),
                                      "cp_apr_pqnr": rng.choice([2, 3])}.get(alg, 5)
             if alg.startswith("cp_apr_"):
                 b["opts"]["stoptol"] = 1e-6                      # keep iterating: several outer iterations actually run
-            for p1, p2 in (ppairs if alg == "cp_apr_mu" or big else ppairs[:3] + [ppairs[3 + j % 3]]):
+            for p1, p2 in (ppairs if big else [ppairs[j % 3], ppairs[(j + 2) % 3], ppairs[3 + j % 3]]):
                 b1 = dict(b)
                 b1["printitn"] = p1
                 t = dict(b)
@@ -392,15 +410,15 @@ def gen_cases(rng, tier):
             t["printitn"] = p2
             cases.append(_mk("print", "hosvd", b1, t))
     # 3. seed: the same global seed twice, random start drawn by pyttb
-    for alg, n in (("cp_als", 4), ("cp_apr_mu", 2), ("cp_apr_pdnr", 2), ("cp_apr_pqnr", 2), ("tucker_als", 3), ("gcp", 3)):
-        for j in range(n * k):
+    for alg, nq, n in (("cp_als", 3, 4), ("cp_apr_mu", 2, 2), ("cp_apr_pdnr", 1, 2), ("cp_apr_pqnr", 1, 2), ("tucker_als", 2, 3), ("gcp", 2, 3)):
+        for j in range(cnt(nq, n)):
             b = base_run(rng, alg, seeded=True)
             if alg not in ("gcp",) and j % 2 == 1:
                 b = to_sparse(rng, b, "sorted")
             cases.append(_mk("seed", alg, b, dict(b)))
     # 4. scale: X vs cX with the same start (powers of two: exact in floats)
-    for alg, n in (("cp_als", 7), ("hosvd", 5), ("tucker_als", 5)):
-        for j in range(n * k):
+    for alg, nq, n in (("cp_als", 5, 7), ("hosvd", 3, 5), ("tucker_als", 3, 5)):
+        for j in range(cnt(nq, n)):
             b = base_run(rng, alg)
             if alg != "hosvd" and j % 3 == 2:
                 b = to_sparse(rng, b, "random")
@@ -418,8 +436,8 @@ def gen_cases(rng, tier):
                 b = to_sparse(rng, b, "random")
             cases.append(_scaled(b, FAR_SCALES[j % len(FAR_SCALES)]))
     # 5. relabel: X vs X.permute(p), guess / ranks / dimorder permuted consistently
-    for alg, n in (("cp_als", 9), ("hosvd", 7), ("tucker_als", 7)):
-        for j in range(n * k):
+    for alg, nq, n in (("cp_als", 7, 9), ("hosvd", 4, 7), ("tucker_als", 4, 7)):
+        for j in range(cnt(nq, n)):
             b = base_run(rng, alg)
             N = len(b["shape"])
             ps = [p for p in U.perms(N) if p != list(range(N))]
@@ -450,12 +468,12 @@ def gen_cases(rng, tier):
     for alg, n in (("cp_als", 3), ("cp_apr_mu", 1), ("cp_apr_pdnr", 1), ("cp_apr_pqnr", 1), ("hosvd", 2), ("tucker_als", 3), ("gcp", 2)):
         for j in range(n * k):                                   # print pairs with odd intervals on short and long runs
             b = base_run(rng, alg, seeded=(alg in ("cp_als", "tucker_als") and j % 3 == 2))
-            if b.get("seed") is not None:
+            if b.get("seed") is not None and _nvecs_ok(b):
                 b["init_str"] = "nvecs"                          # string start computed inside (deterministic; the seed is unused)
             if "maxiters" in b["opts"]:
                 b["opts"]["maxiters"] = (1, 3, 5, 0)[j % 4] if alg != "cp_apr_pqnr" else (1, 2)[j % 2]
             pp = ((0, 2), (2, 5), (0, 10)) if alg == "hosvd" else ((0, 3), (3, 7), (1, 100))
-            for p1, p2 in (pp if big else (pp[j % 3], pp[(j + 1) % 3])):
+            for p1, p2 in (pp if big else (pp[j % 3], pp[(j + 1) % 3]) if alg in ("cp_als", "hosvd") else (pp[j % 3],)):
                 b1 = dict(b)
                 b1["printitn"] = p1
                 t = dict(b)
@@ -476,7 +494,7 @@ def gen_cases(rng, tier):
         b["opts"]["stoptol"] = 0.0
         if j % 4 == 3:
             b = to_sparse(rng, b, "random")
-        for p1, p2 in ((0, 1), (0, 3)):
+        for p1, p2 in (((0, 1), (0, 3)) if big or j < 2 else (((0, 1), (0, 3))[j % 2],)):
             b1 = dict(b)
             b1["printitn"] = p1
             t = dict(b)
@@ -488,7 +506,7 @@ def gen_cases(rng, tier):
     for alg, n in (("cp_als", 3), ("cp_apr_mu", 1), ("cp_apr_pdnr", 1), ("tucker_als", 3), ("gcp", 2)):
         for j in range(n * k):
             b = base_run(rng, alg, seeded=True)
-            if alg in ("cp_als", "tucker_als") and j % 3 == 1:
+            if alg in ("cp_als", "tucker_als") and j % 3 == 1 and _nvecs_ok(b):
                 b["init_str"] = "nvecs"           # dense data only: sptensor.nvecs is broken (open findings A-38, C09-NVECS-SPARSE)
             elif alg not in ("gcp",) and j % 2 == 1:
                 b = to_sparse(rng, b, "sorted")
@@ -529,6 +547,9 @@ def run_impl(c):
     for side in ("base", "trans"):
         try:
             rd = a[side]
+            if side == "trans" and a.get("reinit") and "exc" in out["base"]:
+                out[side] = dict(out["base"])       # no start was returned: nothing to hand back (pair skipped as same failure)
+                continue
             if side == "trans" and a.get("reinit"):
                 # the start the base run drew / computed itself (init = a string) is handed back as an explicit object
                 import random
@@ -708,10 +729,12 @@ def oracle(c, o):
 
 # ------------------------------------------------------------------------------------------ known findings
 def _trig_pqnr_tie(c):
-    """dense-vs-sparse PQNR runs long enough to revisit a (nearly) converged row: >= 2 sweeps, or >= 3 inner iterations"""
+    """dense-vs-sparse PQNR runs long enough to take a quasi-Newton step at a (nearly) converged row: >= 2 sweeps, or >= 2 inner
+    iterations (wave 3b: a row can land exactly on its stationary point with its first step; seen with maxiters=1, maxinneriters=2:
+    direction [0.0] for the dense holder, [1.5e-17] for the sorted sparse one, which then takes the multiplicative fallback)"""
     a = c.args
     o = a["base"]["opts"]
-    return a["pair"] == "repr" and a["alg"] == "cp_apr_pqnr" and (o["maxiters"] >= 2 or o["maxinneriters"] >= 3)
+    return a["pair"] == "repr" and a["alg"] == "cp_apr_pqnr" and (o["maxiters"] >= 2 or o["maxinneriters"] >= 2)
 
 
 TRIGGERS = {"pqnr_tie_regime": _trig_pqnr_tie}
